@@ -38,13 +38,16 @@ TAGS = {
     "nodot": ["system", "Popen", "Local", "URI"],
     "float_pseudo": ["float"],
     "falsy": ["", None, 0, False, b"", []],
-    "nonstring": [5, 1.5, True, ["builtins.ValueError"], ("Pyro5.core.URI",), {"a": 1}],
+    "nonstring": [5, 1.5, True, ["builtins.ValueError"], ("Pyro5.core.URI",), {"a": 1},
+                  # a tag that is itself the class dict of a Proxy (msgpack rebuilds it before the outer dict is looked at)
+                  {"__class__": "Pyro5.client.Proxy", "state": ["PYRO:obj@localhost:1", [], [], [], "hello", None]}],
     "testlocal": ["harness.props.c04.Local", "tests.test_serialize.Something", "c04.Local"],
     "pyro_internal_other": ["Pyro5.server.DaemonObject", "Pyro5.core.resolve", "Pyro5.nameserver.NameServer", "Pyro5.client.BatchProxy",
                             "Pyro5.socketutil.SocketConnection", "Pyro5.server.serve", "Pyro5.client.SerializedBlob", "Pyro5.core.locate_ns"],
 }
 CONVERTING = {"top", "in_list", "in_dict", "in_tuple", "deep", "in_wrapper"}
 AUDIT = []
+ROTATE = {}
 ARMED = [False]
 WATCH = ("exec", "open", "socket.", "subprocess.", "os.system", "os.exec", "os.spawn", "os.posix_spawn", "os.fork", "ctypes.dlopen", "import")
 
@@ -116,10 +119,15 @@ def tagged(tag, flagged, body, tagclass, rng):
         # (no metadata in its state: the first attribute access makes it connect)
         px = {"__class__": "Pyro5.client.Proxy", "state": ["PYRO:obj@localhost:1", [], [], [], "hello", None]}
         if body == "proxy_members":
-            which = rng.randrange(5)
+            ROTATE[tagclass] = which = (ROTATE.get(tagclass, -1) + 1) % 8
             d["args"] = px if which in (0, 4) else ["m"]
             d["attributes"] = px if which in (1, 4) else {}
             d["state"] = px if which in (2, 4) else valid_state.get(tagclass, [])
+            if which == 5:
+                d["attributes"] = {"args": px}                # an attribute whose setter converts what it is given
+            elif which in (6, 7):
+                first = valid_state.get(tagclass, ["PYRO"])[:1] or ["x"]
+                d["state"] = first + [px] + ([[]] if which == 7 else [])      # a state that is too short
             d["exception"] = px if which in (3, 4) else {"__class__": "KeyError", "__exception__": True, "args": ["k"], "attributes": {}}
             d["value"] = px if which == 4 else "1"
         else:
